@@ -399,13 +399,32 @@ def run_check(prop_id, required, correspond, witnesses=None, search=None, truste
     disagreements = correspond(res, rng, tier()) or []
   except Timeout:
     raise
+  except Exception as e:  # pylint: disable=broad-except
+    # the correspondence stage itself could not run against this tree (an interface of the real code changed under it, a
+    # driver died, ...): the tie between model and code is broken, which is reported like any other disagreement — never
+    # as a bare traceback — and the failing-input search still gets its turn
+    import traceback  # pylint: disable=g-import-not-at-top
+    disagreements = [{"kind": "correspondence-stage-raised", "exception": repr(e)[:400],
+                      "trace": traceback.format_exc()[-1800:]}]
   res.cov["correspondence_disagreements"] = len(disagreements)
   if witnesses:
-    witnesses(res)
+    try:
+      witnesses(res)
+    except Timeout:
+      raise
+    except Exception as e:  # pylint: disable=broad-except
+      import traceback  # pylint: disable=g-import-not-at-top
+      disagreements = disagreements + [{"kind": "witness-stage-raised", "exception": repr(e)[:400],
+                                        "trace": traceback.format_exc()[-1800:]}]
   if pfail or disagreements:
     found = []
     if search:
-      found = search(res, rng, disagreements, pfail) or []
+      try:
+        found = search(res, rng, disagreements, pfail) or []
+      except Timeout:
+        raise
+      except Exception as e:  # pylint: disable=broad-except
+        res.cov["search_error"] = repr(e)[:300]
     res.cov["search_failing_inputs"] = len(found)
     if found:
       for i, f in enumerate(found[:3]):
